@@ -679,5 +679,6 @@ def check(ctx, case):
 
 def search(ctx):
     _q()
-    core.run_given(ctx, "meta", meta_cases(), lambda c: check(ctx, c), ctx.n(450, 6000))
-    core.run_given(ctx, "analytic", analytic_cases(), lambda c: check(ctx, c), ctx.n(700, 12000))
+    # per worker (quick: 2 workers, thorough: 16); a meta case is 12-30 reconstructions (~80 ms), an analytic one ~10 ms
+    core.run_given(ctx, "meta", meta_cases(), lambda c: check(ctx, c), ctx.n(250, 4000))
+    core.run_given(ctx, "analytic", analytic_cases(), lambda c: check(ctx, c), ctx.n(400, 8000))
